@@ -1,65 +1,68 @@
 (* Transaction blocks over the real bodies (model/TxnBlock.v).
-   (1) In a world of inline values (no row refers to a value file) a block of calls is a well-behaved body of the
-       machine, so for every number of clients, every schedule and every kill the machine invariant holds with blocks
-       in the programs: a block commits atomically, an aborted block leaves the committed state exactly as it was,
-       nobody else's write takes effect while it is open (the generic theorems of ConcTheorems.v apply).
-   (2) With file-backed values the statement is FALSE of the code as written: the findings C06-F1 (a replaced value),
-       C06-F2 (a popped value) and C07-F1 (a kill instead of the raise) are replayed on these bodies. *)
+   (1) A block of calls is a well-behaved body of the machine (body_ok), for inline AND file-backed values: the files
+       its inner calls release are removed only after the block's COMMIT.  So for every number of clients, every
+       schedule and every kill the machine invariant holds with blocks in the programs: a block commits atomically,
+       an aborted block leaves the committed state -- files included -- exactly as it was, nobody else's write takes
+       effect while it is open, every committed row's file is complete (the generic theorems of ConcTheorems.v apply).
+   (2) The body the code had BEFORE the repair (inner calls remove the files they release when they return:
+       body_block_early) is not well-behaved: the findings C06-F1, C06-F2 and C07-F1 are replayed on it, and the same
+       programs are harmless on the repaired body. *)
 From DC Require Import DCPrelude DCPreludeFacts Val DiskBase SqlBase Gen_Disk Disk Gen_Sql Cache CacheRun Refs
   SinvFacts Conc ConcFacts ConcTheorems Txn TxnFacts TxnBlock.
 
-Definition Winv0 (d : st) : Prop := Winv d /\ refs d = [].
+Lemma ofile_optl (f : option Z) : ofile f = optl f.
+Proof. destruct f; reflexivity. Qed.
 
-Lemma nil_of_no_elements {A} (l : list A) : (forall x, In x l -> False) -> l = [].
-Proof. destruct l as [|a l]; [reflexivity|]. intros H. exfalso. apply (H a). left. reflexivity. Qed.
-
-(* a call that stores no value file of its own keeps an inline world inline *)
-Lemma body_ok_inline (w : cwop) : body_ok refs Winv w -> w_store w = false -> body_ok refs Winv0 w.
+Lemma nodup_app_intro {A} (a b : list A) :
+  NoDup a -> NoDup b -> (forall x, In x a -> ~ In x b) -> NoDup (a ++ b).
 Proof.
-  intros H S d f [W R0] Hf Hs. cbv zeta.
-  assert (F : f = None) by (apply Hs, S). subst f.
-  assert (X := H d None W (fun g (E : None = Some g) => False_ind _ (eq_ind None (fun o => match o with None => True | Some _ => False end) I _ E)) (fun _ => eq_refl)).
-  cbv zeta in X. destruct X as [A [B [C [Dd [E G]]]]].
-  assert (R1 : refs (bo_db (w_body w d None)) = []).
-  { apply nil_of_no_elements. intros g I. destruct (B g I) as [I'|I']; [rewrite R0 in I'; exact I'|discriminate]. }
-  assert (Cl : bo_cleanup (w_body w d None) ++ optl (bo_fetch (w_body w d None)) = []).
-  { apply nil_of_no_elements. intros g I. destruct (C g I) as [[I'|I'] _]; [rewrite R0 in I'; exact I'|discriminate]. }
-  split; [split; assumption|]. split; [intros g I; rewrite R1 in I; contradiction|].
-  split; [intros g I; rewrite Cl in I; contradiction|]. split; [rewrite Cl; constructor|].
-  split; [exact E|]. intros _ g Hg. discriminate.
+  induction a as [|x a IH]; intros Ha Hb Hd; cbn [app]; [exact Hb|].
+  inversion Ha as [|? ? Hx Ha']; subst. constructor.
+  - intros I. apply in_app_or in I as [I|I]; [exact (Hx I)|]. apply (Hd x); [left; reflexivity|exact I].
+  - apply IH; [exact Ha'|exact Hb|]. intros y Iy. apply Hd. right. exact Iy.
 Qed.
 
-(* the inner calls of a block, run on an inline world: the world stays inline and nothing is released *)
-Lemma block_fold_inline : forall (ws : list cwop) d last,
-  Forall (body_ok refs Winv) ws -> Winv0 d ->
-  let '(d', e, _) := block_fold ws d last in Winv0 d' /\ e = [].
+Definition no_file : forall g : Z, None = Some g -> ~ In g (@nil Z) :=
+  fun g E => False_ind _ (eq_ind None (fun o => match o with None => True | Some _ => False end) I _ E).
+
+(* the inner calls of a block, composed: the invariant is kept, no file reference appears, and the released files
+   were referenced before, are referenced no more, and are pairwise distinct *)
+Lemma block_fold_ok : forall (ws : list cwop) d last,
+  Forall (body_ok refs Winv) ws -> Winv d ->
+  let '(d', e, _) := block_fold ws d last in
+  Winv d' /\ (forall g, In g (refs d') -> In g (refs d)) /\
+  (forall g, In g e -> In g (refs d) /\ ~ In g (refs d')) /\ NoDup e.
 Proof.
-  induction ws as [|w r IH]; intros d last Hw [W R0]; cbn [block_fold]; [split; [split; assumption|reflexivity]|].
-  inversion Hw as [|? ? Hw1 Hr]; subst.
-  assert (X := Hw1 d None W (fun g (E : None = Some g) => False_ind _ (eq_ind None (fun o => match o with None => True | Some _ => False end) I _ E)) (fun _ => eq_refl)).
-  cbv zeta in X. destruct X as [A [B [C _]]].
-  assert (R1 : refs (bo_db (w_body w d None)) = []).
-  { apply nil_of_no_elements. intros g I. destruct (B g I) as [I'|I']; [rewrite R0 in I'; exact I'|discriminate]. }
-  assert (Cl : bo_cleanup (w_body w d None) ++ optl (bo_fetch (w_body w d None)) = []).
-  { apply nil_of_no_elements. intros g I. destruct (C g I) as [[I'|I'] _]; [rewrite R0 in I'; exact I'|discriminate]. }
-  specialize (IH (bo_db (w_body w d None)) (bo_res (w_body w d None)) Hr (conj A R1)).
-  destruct (block_fold r (bo_db (w_body w d None)) (bo_res (w_body w d None))) as [[d' e] res].
-  destruct IH as [I1 I2]. split; [exact I1|].
-  apply app_eq_nil in Cl as [C1 C2]. rewrite C1, I2.
-  assert (F0 : ofile (bo_fetch (w_body w d None)) = []).
-  { unfold optl in C2. unfold ofile. destruct (bo_fetch (w_body w d None)); [discriminate|reflexivity]. }
-  rewrite F0. reflexivity.
+  induction ws as [|w r IH]; intros d last Hw W; cbn [block_fold].
+  - split; [exact W|]. split; [auto|]. split; [intros g []|constructor].
+  - inversion Hw as [|? ? Hw1 Hr]; subst.
+    assert (X := Hw1 d None W (fun g (E : None = Some g) => False_ind _ (eq_ind None (fun o => match o with None => True | Some _ => False end) I _ E)) (fun _ => eq_refl)).
+    cbv zeta in X. destruct X as [A [B [C [N _]]]].
+    specialize (IH (bo_db (w_body w d None)) (bo_res (w_body w d None)) Hr A).
+    destruct (block_fold r (bo_db (w_body w d None)) (bo_res (w_body w d None))) as [[d' e] res].
+    destruct IH as [I1 [I2 [I3 I4]]].
+    assert (B' : forall g, In g (refs (bo_db (w_body w d None))) -> In g (refs d)).
+    { intros g Ig. destruct (B g Ig) as [H|H]; [exact H|discriminate]. }
+    split; [exact I1|]. split; [intros g Ig; apply B', I2, Ig|].
+    rewrite ofile_optl, app_assoc.
+    split.
+    + intros g Ig. apply in_app_or in Ig as [Ig|Ig].
+      * destruct (C g Ig) as [[H|H] Hn]; [|discriminate]. split; [exact H|]. intros K. apply Hn, I2, K.
+      * destruct (I3 g Ig) as [H Hn]. split; [apply B', H|exact Hn].
+    + apply nodup_app_intro; [exact N|exact I4|].
+      intros g Ig Ie. destruct (C g Ig) as [_ Hn]. destruct (I3 g Ie) as [H _]. exact (Hn H).
 Qed.
 
 Theorem body_ok_block retry ws raises :
-  Forall (body_ok refs Winv) ws -> body_ok refs Winv0 (w_block retry ws raises).
+  Forall (body_ok refs Winv) ws -> body_ok refs Winv (w_block retry ws raises).
 Proof.
-  intros Hw d f W0 Hf Hs. cbv zeta. cbn [w_block w_body]. unfold body_block.
-  pose proof (block_fold_inline ws d (RBool true) Hw W0) as H.
-  destruct (block_fold ws d (RBool true)) as [[d' e] res]. destruct H as [[W1 R1] E]. subst e.
-  cbn [bo_db bo_early bo_cleanup bo_fetch bo_ok app optl].
-  split; [split; assumption|]. split; [intros g I; rewrite R1 in I; contradiction|].
-  split; [intros g []|]. split; [constructor|]. split; [reflexivity|].
+  intros Hw d f W Hf Hs. cbv zeta. cbn [w_block w_body]. unfold body_block.
+  pose proof (block_fold_ok ws d (RBool true) Hw W) as H.
+  destruct (block_fold ws d (RBool true)) as [[d' e] res]. destruct H as [W1 [R1 [E1 N1]]].
+  cbn [bo_db bo_early bo_cleanup bo_fetch bo_ok optl]. rewrite app_nil_r.
+  split; [exact W1|]. split; [intros g I; left; apply R1, I|].
+  split; [intros g I; destruct (E1 g I) as [H1 H2]; split; [left; exact H1|exact H2]|].
+  split; [exact N1|]. split; [reflexivity|].
   intros _ g Hg. rewrite (Hs eq_refl) in Hg. discriminate.
 Qed.
 
@@ -77,11 +80,12 @@ Definition bcompile (c : cfg) (b : bcall) : Conc.op st result :=
   | BBlock retry xs raises => OWrite (w_block retry (flat_map (call_wop c) xs) raises)
   end.
 
-(* no call of the program stores a value file (all values below the file threshold) *)
+(* the instance: the inner calls of a block store no NEW value file (their values stay below the file threshold; the keys
+   they overwrite, delete or pop may well hold file-backed values) *)
 Definition op_inline (o : Conc.op st result) : bool := match o with OWrite w => negb (w_store w) | ORead _ => true end.
 Definition bcall_inline (c : cfg) (b : bcall) : bool :=
   match b with
-  | BOne x => op_inline (compile c x)
+  | BOne x => true
   | BBlock _ xs _ => forallb (fun x => op_inline (compile c x)) xs
   end.
 
@@ -95,42 +99,43 @@ Proof.
   induction xs as [|x r IH]; cbn [flat_map]; [constructor|]. apply Forall_app. split; [apply call_wop_ok|exact IH].
 Qed.
 
-Theorem bcompile_ok c b : bcall_inline c b = true -> op_ok refs Winv0 (bcompile c b).
+Theorem bcompile_ok c b : op_ok refs Winv (bcompile c b).
 Proof.
-  destruct b as [x|retry xs raises]; cbn [bcompile bcall_inline]; intros H.
-  - pose proof (compile_ok c x) as K. destruct (compile c x) as [w|r]; cbn [op_ok op_inline] in *.
-    + apply body_ok_inline; [exact K|]. destruct (w_store w); [discriminate|reflexivity].
-    + exact K.
+  destruct b as [x|retry xs raises]; cbn [bcompile].
+  - apply compile_ok.
   - cbn [op_ok]. apply body_ok_block, flat_call_wop_ok.
 Qed.
 
-Lemma winv0_init : Winv0 init_st.
-Proof. split; [apply sinv_init|reflexivity]. Qed.
-
-(* C06 for inline values, with the real bodies: every configuration reachable by any schedule (kills included) of
-   programs made of single calls and blocks satisfies the machine invariant over Winv0 *)
+(* C06 with the real bodies, inline and file-backed values: every configuration reachable by any schedule (kills
+   included) of programs made of single calls and blocks satisfies the machine invariant *)
 Theorem block_inv c (progs : nat -> list bcall) sched :
-  (forall i, forallb (bcall_inline c) (progs i) = true) ->
-  Inv refs Winv0 (exec (init_config init_st (fun i => map (bcompile c) (progs i))) sched).
+  Inv refs Winv (exec (init_config init_st (fun i => map (bcompile c) (progs i))) sched).
 Proof.
-  intros Hin. apply inv_exec, inv_init.
-  - apply winv0_init.
+  apply inv_exec, inv_init.
+  - apply sinv_init.
   - reflexivity.
-  - intros i. apply Forall_forall. intros o I. apply in_map_iff in I as [b [<- Ib]].
-    apply bcompile_ok. specialize (Hin i). rewrite forallb_forall in Hin. apply Hin, Ib.
+  - intros i. apply Forall_forall. intros o I. apply in_map_iff in I as [b [<- Ib]]. apply bcompile_ok.
 Qed.
 
-(* hence: the COMMIT of a block installs all its effects at once and releases the lock ... *)
+(* hence: every committed row's file is complete in every reachable configuration, blocks or not ... *)
+Corollary block_files_complete c progs sched :
+  let cf := exec (init_config init_st (fun i => map (bcompile c) (progs i))) sched in
+  Winv (db cf) /\ forall g, In g (refs (db cf)) -> files cf g = FDone.
+Proof.
+  cbv zeta. pose proof (block_inv c progs sched) as H. split; [apply (@i_dinv _ _ _ _ _ H)|apply (@i_ref _ _ _ _ _ H)].
+Qed.
+
+(* ... the COMMIT of a block installs all its effects at once and releases the lock ... *)
 Corollary block_commit_atomic c progs sched i retry xs raises f o :
-  (forall i, forallb (bcall_inline c) (progs i) = true) ->
   let cf := exec (init_config init_st (fun i => map (bcompile c) (progs i))) sched in
   c_pc (cl cf i) = AtCommit (w_block retry (flat_map (call_wop c) xs) raises) f o -> bo_ok o = true ->
   exists c', cstep cf i = Some c' /\ db c' = bo_db (body_block (flat_map (call_wop c) xs) raises (db cf) f) /\ lock c' = None.
 Proof.
-  intros Hin cf Hpc Hok. exact (commit_is_atomic st result refs Winv0 cf i _ f o (block_inv c progs sched Hin) Hpc Hok).
+  intros cf Hpc Hok. exact (commit_is_atomic st result refs Winv cf i _ f o (block_inv c progs sched) Hpc Hok).
 Qed.
 
-(* ... and a block that raises leaves the committed state EXACTLY as it was *)
+(* ... and a block that raises leaves the committed state EXACTLY as it was, its files included: the ROLLBACK step
+   changes neither the rows nor any file *)
 Corollary block_abort_restores c progs sched i retry xs raises f o :
   let cf := exec (init_config init_st (fun i => map (bcompile c) (progs i))) sched in
   c_pc (cl cf i) = AtCommit (w_block retry (flat_map (call_wop c) xs) raises) f o -> bo_ok o = false ->
@@ -140,11 +145,13 @@ Proof. intros cf Hpc Hok. exact (rollback_restores st result cf i _ f o Hpc Hok)
 Print Assumptions block_inv.
 Print Assumptions block_commit_atomic.
 
-(* ------------------------------------------------------------------ with file-backed values the statement is false
+(* ------------------------------------------------------------------ the defect that was repaired, on the old body
    One client; key "k" holds a file-backed value (20 characters, file threshold 8).
-   W1 (finding C06-F1): with transact: set k 5; raise   -> ROLLBACK restores the row, but the inner set already removed its file.
-   W2 (finding C06-F2): with transact: pop k; raise     -> the same through pop's read-and-remove.
-   W3 (finding C07-F1): with transact: set k 5; <killed before COMMIT> -> the committed row survives, its file is gone. *)
+   W1 (C06-F1): with transact: set k 5; raise   -> ROLLBACK restores the row; on the OLD body the inner set had already
+                removed its file.
+   W2 (C06-F2): with transact: pop k; raise     -> the same through pop's read-and-remove.
+   W3 (C07-F1): with transact: set k 5; <killed before COMMIT> -> the committed row survives; on the OLD body its file is gone.
+   On the repaired body the same programs leave no dangling row. *)
 Definition wcfg : cfg :=
   {| c_policy := PLRS; c_size_limit := 1073741824; c_cull_limit := 10; c_min_file_size := 8; c_codec := mk_codec [] [] |}.
 Definition wkey : pyval := VStr [107].
@@ -163,21 +170,27 @@ Definition dangling (c : config st result) : bool :=
 Definition client_done (c : config st result) : bool :=
   match c_pc (cl c 0), c_todo (cl c 0) with Idle, [] => true | _, _ => false end.
 
+Definition old1_final := exec (one_client [OWrite w_setbig; OWrite (w_block_early true [w_set5] true)]) (repeat (Step 0) 30).
+Definition old2_final := exec (one_client [OWrite w_setbig; OWrite (w_block_early true [w_popk] true)]) (repeat (Step 0) 30).
+Definition old3_final := exec (one_client [OWrite w_setbig; OWrite (w_block_early true [w_set5] false)]) (repeat (Step 0) 11 ++ [Kill 0]).
+
+Lemma old_body_abort_loses_file : client_done old1_final = true /\ lock old1_final = None /\ length (rows (db old1_final)) = 1%nat /\ dangling old1_final = true.
+Proof. vm_compute. repeat split; reflexivity. Qed.
+Lemma old_body_abort_loses_file_pop : client_done old2_final = true /\ lock old2_final = None /\ length (rows (db old2_final)) = 1%nat /\ dangling old2_final = true.
+Proof. vm_compute. repeat split; reflexivity. Qed.
+Lemma old_body_kill_in_block_loses_file : lock old3_final = None /\ length (rows (db old3_final)) = 1%nat /\ dangling old3_final = true.
+Proof. vm_compute. repeat split; reflexivity. Qed.
+
 Definition w1_final := exec (one_client [OWrite w_setbig; OWrite (w_block true [w_set5] true)]) (repeat (Step 0) 30).
 Definition w2_final := exec (one_client [OWrite w_setbig; OWrite (w_block true [w_popk] true)]) (repeat (Step 0) 30).
 Definition w3_final := exec (one_client [OWrite w_setbig; OWrite (w_block true [w_set5] false)]) (repeat (Step 0) 11 ++ [Kill 0]).
+Definition w4_final := exec (one_client [OWrite w_setbig; OWrite (w_block true [w_set5] false)]) (repeat (Step 0) 30).
 
-Lemma abort_loses_file_real : client_done w1_final = true /\ lock w1_final = None /\ length (rows (db w1_final)) = 1%nat /\ dangling w1_final = true.
-Proof. vm_compute. repeat split; reflexivity. Qed.
-
-Lemma abort_loses_file_pop_real : client_done w2_final = true /\ lock w2_final = None /\ length (rows (db w2_final)) = 1%nat /\ dangling w2_final = true.
-Proof. vm_compute. repeat split; reflexivity. Qed.
-
-Lemma kill_in_block_loses_file_real : lock w3_final = None /\ length (rows (db w3_final)) = 1%nat /\ dangling w3_final = true.
-Proof. vm_compute. repeat split; reflexivity. Qed.
-
-(* the same blocks over an inline value are harmless (the witnesses are about files, not about the rows) *)
-Definition w_set1 : cwop := w_set true wcfg wkey (VInt 1) false None SNull wnow 0.
-Definition w0_final := exec (one_client [OWrite w_set1; OWrite (w_block true [w_set5] true)]) (repeat (Step 0) 30).
-Lemma abort_inline_restores : client_done w0_final = true /\ dangling w0_final = false /\ map rvalue (rows (db w0_final)) = [SInt 1].
+(* the repaired body: after the abort (resp. the kill) the row is back and its file is still there; after a COMMIT the
+   row holds the new inline value and the old file is gone *)
+Lemma repaired_body_keeps_file :
+  (client_done w1_final = true /\ lock w1_final = None /\ length (rows (db w1_final)) = 1%nat /\ dangling w1_final = false) /\
+  (client_done w2_final = true /\ lock w2_final = None /\ length (rows (db w2_final)) = 1%nat /\ dangling w2_final = false) /\
+  (lock w3_final = None /\ length (rows (db w3_final)) = 1%nat /\ dangling w3_final = false) /\
+  (client_done w4_final = true /\ map rvalue (rows (db w4_final)) = [SInt 5] /\ map rfile (rows (db w4_final)) = [None] /\ files w4_final 0 = FNone).
 Proof. vm_compute. repeat split; reflexivity. Qed.
